@@ -1362,6 +1362,24 @@ fn w_c19_faults() {
             }
         }
     }
+    // responses that involve no RowWriter (completions, errors, the library's own replies, PREPARE): the result writer is
+    // consumed by the call that writes the terminator, so no destructor is left owing I/O -- under every one-off or
+    // persistent fault such a conversation must end in Err, never in a panic. (A RowWriter dropped by a `?` after a failed
+    // write does retry in its destructor: known finding D10, exercised by the sweep above -- that includes the library's
+    // own reply to `SELECT @@...`, which goes through a RowWriter.)
+    let fcmds: Vec<(Vec<u8>, u8)> = vec![(vec![0x0e], 0), (c_query(b"ok:1:2"), 0), (c_query(b"okerr"), 0), (c_query(b"err:1064:x"), 0),
+        (c_prepare(b"p:1:1:1"), 0), (c_execute(1, &[(253, false, Some(vec![1, b'x']))], true), 0), (cmd(0x04, b"t"), 0), (c_query(b"USE db"), 0)];
+    let clean = converse(hs.clone(), &fcmds, vec![], false, None, None);
+    assert!(clean.result.is_ok(), "[C19.w.run] conversation without row writers failed: {:?}", clean.result);
+    let nops = clean.net.0.borrow().ops;
+    for k in 0..nops {
+        for pers in [false, true] {
+            let r = converse_k(hs.clone(), &fcmds, vec![], false, Some((k, pers)), None, io::ErrorKind::BrokenPipe);
+            assert!(!r.panicked, "[C19.w.nopanic] {} transport error at operation {} made run_on PANIC although no row writer was involved", if pers { "persistent" } else { "one-off" }, k);
+            assert!(r.result.is_err(), "[C19.w.fault] {} transport error at operation {} was masked (run_on returned Ok)", if pers { "persistent" } else { "one-off" }, k);
+            cases += 1;
+        }
+    }
     // the same for a response that spans several packets (a row of 16 MiB and more, text and binary):
     // the write of a maximal packet happens inside PacketConn::write, not at end_packet
     let bigcmds: Vec<(Vec<u8>, u8)> = vec![(c_query(b"setexec=big:16777300"), 0), (c_prepare(b"p:1:0:0"), 0), (c_execute(1, &[], true), 0), (c_query(b"big:33554430"), 0), (vec![0x0e], 0)];
